@@ -193,6 +193,7 @@ func TestWorker(t *testing.T) {
 	maxRuns := envInt("VERIF_MAX_RUNS", 1<<30)
 	budget := time.Duration(envInt("VERIF_BUDGET_S", 10)) * time.Second
 	maxViol := envInt("VERIF_MAX_VIOL", 4)
+	idxOffset := uint64(envInt("VERIF_IDX_OFFSET", 0)) // successive processes of one worker slot continue the index sequence
 	digestLog := os.Getenv("VERIF_DIGEST_LOG")
 	var dl *os.File
 	if digestLog != "" {
@@ -228,7 +229,7 @@ func TestWorker(t *testing.T) {
 			}
 		}
 		c := cases[ci]
-		idx := uint64(worker + count[ci]*workers)
+		idx := uint64(worker+count[ci]*workers) + idxOffset
 		count[ci]++
 		seed := kernel.Hash64(base, prop+"/"+c.Engine, idx)
 		runStart := time.Now()
